@@ -321,7 +321,7 @@ fn refract<S: Lift, V: Sp<S, N>, const N: usize>(t: &mut Tape, cx: &mut Cx) -> C
                 (S::q(h1, a1) * S::q(1025, 1024), None)
             }
             3 => {
-                cx.label("refracted: k > 0 by a hair (eta^2 sin^2 = 1 - (7/25)^2 ... Pythagorean)");
+                cx.label("refracted: k > 0, refraction angle near 90 degrees (sin th2 = 24/25, 40/41, 60/61)");
                 // th2 close to 90 degrees: sin th2 = 24/25 or 40/41
                 let (a2, b2, h2) = t.pick(&[(24i64, 7i64, 25i64), (40, 9, 41), (60, 11, 61)]);
                 (S::q(a2, h2) / s1, Some((S::q(a2, h2), S::q(b2, h2))))
@@ -538,13 +538,13 @@ pub fn checks(checks: &mut Vec<Check>) {
             add(concat!("angle-", stringify!($V), "-f32"), a, 14 * N + 32, q, angle::<f32, $V<f32>, N>);
         }};
     }
-    reg!(Vec2, 2, 6000);
-    reg!(Vec3, 3, 6000);
-    reg!(Vec4, 4, 6000);
-    reg!(Extent2, 2, 6000);
-    reg!(Extent3, 3, 6000);
-    reg!(Vec8, 8, 4000);
-    reg!(Vec16, 16, 3000);
-    reg!(Vec32, 32, 2000);
-    reg!(Vec64, 64, 1500);
+    reg!(Vec2, 2, 10_000);
+    reg!(Vec3, 3, 10_000);
+    reg!(Vec4, 4, 10_000);
+    reg!(Extent2, 2, 10_000);
+    reg!(Extent3, 3, 10_000);
+    reg!(Vec8, 8, 6000);
+    reg!(Vec16, 16, 4000);
+    reg!(Vec32, 32, 3000);
+    reg!(Vec64, 64, 2000);
 }
